@@ -109,11 +109,16 @@ class AcceptSweep:
         try:
             if extra is not None:
                 c2.assume(extra)
-            m = c2.model()
+            res, m = c2.check_final()
         except Exception:      # noqa: B902
             return None
-        if m is None:
+        if res == z3.unknown:
+            # neither refuted nor discharged: the obligation this model was wanted for is undecided
+            self.unknowns = getattr(self, 'unknowns', 0) + 1
             return None
+        if res != z3.sat:
+            return None
+        m = m if m is not None else c2.s.model()
         return witness_string(c2, primary, m), today_of(c2, m)
 
 
